@@ -1233,6 +1233,7 @@ impl<'a, 'b, W: Write> Serializer for &'a mut YamlSerializer<'b, W> {
     fn serialize_none(self) -> Result<()> {
         self.write_space_if_pending()?;
         self.last_value_was_block = false;
+        self.write_scalar_prefix_if_anchor()?;
         if self.at_line_start {
             self.write_indent(self.depth)?;
         }
@@ -1248,6 +1249,7 @@ impl<'a, 'b, W: Write> Serializer for &'a mut YamlSerializer<'b, W> {
     fn serialize_unit(self) -> Result<()> {
         self.write_space_if_pending()?;
         self.last_value_was_block = false;
+        self.write_scalar_prefix_if_anchor()?;
         if self.at_line_start {
             self.write_indent(self.depth)?;
         }
